@@ -16,7 +16,22 @@ env = dict(os.environ)
 env.pop("QUANTARHEI_VERIF", None)
 env["PYTHONPATH"] = d
 cmd = ["/venv/bin/python", "-m", "pytest", "-q", "-p", "no:cacheprovider", "--timeout=900",
-       "--continue-on-collection-errors", "--junitxml=" + xml]
+       "--continue-on-collection-errors", "--junitxml=" + xml,
+       "--basetemp=" + tempfile.mkdtemp(prefix="suite_bt_")]
+if os.path.realpath(d) != "/repo":
+    # In a scratch worktree the whole-tree collection imports the package `tests` of /repo (the
+    # editable install puts /repo on sys.path and docs/ + examples/ are collected first), which
+    # makes pytest refuse the worktree's test files.  Run exactly the files that hold the
+    # baseline's stable tests instead; ids are rootdir-relative and stay the same.
+    files = set()
+    for tid in want:
+        parts = tid.split("::")[0].split(".")
+        for k in range(len(parts), 0, -1):
+            p = os.path.join(d, *parts[:k]) + ".py"
+            if os.path.exists(p):
+                files.add(os.path.join(*parts[:k]) + ".py")
+                break
+    cmd += sorted(files)
 if n != "0":
     cmd += ["-n", n]
 r = subprocess.run(cmd, cwd=d, env=env, capture_output=True, text=True)
